@@ -117,7 +117,7 @@ func Load(repo string, overlay map[string][]byte) (*Ctx, error) {
 		}
 		return os.ReadFile(abs)
 	}
-	for round := 0; round < 4; round++ {
+	for round := 0; round < 8; round++ {
 		files, log := inlineRound(pkgs, readFile, &counter)
 		inlineLog = append(inlineLog, log...)
 		if len(files) == 0 {
